@@ -134,6 +134,38 @@ CHECKS = {
             "-i, permutation}: the output must consist of exactly the expected lines in the expected order.",
             "Edge classes of the two edge families; injective sort keys; trailing blanks after the arrow of a "
             "neighbour-less line are tolerated."),
+    "C11": ("engine_e", "DESIGN.md section 4 C11",
+            "complete enumeration of bounded builder inputs x link types x prior structures; reference-model replay and read-back on every case",
+            "model_checking",
+            "Every adjacency dict over <=3 vertices (every ordered key selection, every row of length <=2-3 with repeats "
+            "and self entries, lists and tuples), every 1x1/2x2 matrix over {0,1,'x',None}, every 3x3 0/1 matrix, side "
+            "arrays in order / permuted / with a repeated vertex, and every malformed shape up to 3x3, each x 5 link "
+            "types x {no prior structure, a prior link and an older universe}: one builder call on fresh objects, "
+            "compared with the documented construction (members in first-mention order, one link of exactly the "
+            "requested class per pair in input order, oriented key->value, prior structure untouched), read back "
+            "through neighbors()/find_links(); malformed input must raise ValueError and touch nothing.",
+            "Inputs bounded as stated; read-back only for link types of the two edge families."),
+    "C13": (F, "DESIGN.md section 4 C13",
+            "fault enumeration: for every graph state / entry point / callback, a fault at the k-th callback invocation for every k (pairs where swallowed) x 3 exception types x caching on/off",
+            "fault_enumeration",
+            "Every ordered multigraph of the space x caching flag x membership list x 26 read-only entry-point/"
+            "callback pairs x every argument: the fault-free run fixes the invocation count N; then every single "
+            "fault position k<=N (and every pair for exceptions the library swallows) x {Boom, AssertionError, "
+            "StopIteration} is executed on fresh objects; the complete vars() snapshot of every vertex, link and "
+            "universe must be identical before and after, and the healed repeat call on the same objects with the "
+            "same wrapper must equal the pristine twin's answer.",
+            "The neighbour memo is exempt from the snapshot (C05 covers it); PlantUML lines are compared as a "
+            "sorted multiset (set iteration order)."),
+    "C20": (F, "DESIGN.md section 4 C20",
+            "complete enumeration of the owned random source's answers (count<=4), deviation-bounded (<=2) beyond; postconditions on every execution",
+            "model_checking",
+            "randgraph's only nondeterminism (random.randint / random.sample) is replaced by a proxy whose every "
+            "answer is a choice point; for count 1..4 every answer sequence is executed (every leaf of the choice "
+            "tree once), for larger counts the default answers and all 1- and 2-deviations, each x 3 edge types x 5 "
+            "connectivities x 2 ensurelink; each execution must return a universe of exactly count vertices "
+            "labelled 0..count-1 whose links are of the requested type with both ends members (and every vertex v1 "
+            "of a link under ensurelink). A finite seed sweep with the real random module checks reproducibility.",
+            "Any use of another random primitive is a harness error; counts above 4 are not exhaustive."),
 }
 
 
@@ -183,6 +215,9 @@ def main():
              "serves_properties": sorted(k for k, v in CHECKS.items() if v[0] == G),
              "kind_free_text": "exhaustive enumeration of all small ordered multigraphs as a construction "
                                "state graph, property evaluated in every state for the full configuration product"},
+            {"name": "engine_e", "path": "egmc/engine_e.py",
+             "serves_properties": sorted(k for k, v in CHECKS.items() if v[0] == "engine_e"),
+             "kind_free_text": "complete enumeration of a finite case list on the real code, sharded over workers"},
             {"name": F, "path": "egmc/engine_f.py",
              "serves_properties": sorted(k for k, v in CHECKS.items() if v[0] == F),
              "kind_free_text": "deviation-bounded / complete enumeration of environment answers "
